@@ -4,6 +4,7 @@ import (
 	"fmt"
 	"go/constant"
 	"go/token"
+	"sort"
 	"strings"
 
 	"golang.org/x/tools/go/ssa"
@@ -347,7 +348,10 @@ func checkC09(c *Ctx) {
 			return ir.HasGlobal(c.sliceOf(lk.X), sigPkg+".ValidEFISignatureSchemes")
 		}, nil)
 		c.normalisedSelection(ap)
+		c.ruleScopedDuplicate("K9.scope", ap)
 	}
+	c.ruleHandledErrors("K9.errors", rm, rb)
+	c.ruleListNotShared("K10.share")
 	if rb != nil {
 		c.guardedMutations("K0.guard", rb, "found", "an entry is removed only behind the edge on which it was found", func(ce ir.CondEdge) bool {
 			found, ok := c.membershipEdge(ce)
@@ -1105,4 +1109,226 @@ func (c *Ctx) membershipEdge(ce ir.CondEdge) (found bool, ok bool) {
 		return false, true
 	}
 	return false, false
+}
+
+// ruleScopedDuplicate (K9.scope): Append refuses an entry as a duplicate only
+// on the word of the list it selected (same type, same size). A membership
+// test over the whole database that sends Append to a failing return ignores
+// the signature type: the same bytes under another type are a different entry.
+func (c *Ctx) ruleScopedDuplicate(rule string, ap *ssa.Function) {
+	bad := ""
+	n := 0
+	for _, ce := range ir.CondEdges(ap) {
+		call := callOf(ce.Cond)
+		if bo, isB := ce.Cond.(*ssa.BinOp); isB && call == nil {
+			call = callOf(ir.StripConv(bo.X))
+		}
+		if call == nil {
+			continue
+		}
+		callee := ir.Callee(call)
+		if callee == nil || callee.Signature.Recv() == nil || ir.NamedTypeID(callee.Signature.Recv().Type()) != sigPkg+".SignatureDatabase" {
+			continue
+		}
+		found, ok := c.membershipEdge(ce)
+		if !ok || !found {
+			continue
+		}
+		n++
+		// does the found edge lead to failing returns only?
+		fails := true
+		for _, cl := range retClassesFrom(ap, ap.Blocks[ce.Edge.To], ce.Edge.From) {
+			if cl != "fail" {
+				fails = false
+			}
+		}
+		if fails {
+			bad = c.IPos(ce.If)
+		}
+	}
+	if n == 0 {
+		c.R.Okf(rule, name(ap), "list-scoped", c.Pos(ap.Pos()), "no database-wide membership test decides whether Append refuses")
+		return
+	}
+	c.R.Check(bad == "", rule, name(ap), "list-scoped", c.Pos(ap.Pos()), "an entry is refused as a duplicate only by the list selected for its type and size",
+		"a membership test over the whole database at "+bad+" makes Append fail: entries with the same bytes under another signature type (or in a list of another size) are refused although they are different entries")
+}
+
+// ruleHandledErrors (K9.errors): Remove goes on to "removed" after RemoveBytes
+// unless the error is one it tests for. Every error RemoveBytes can return must
+// therefore be tested (or the error compared with nil): an untested one ends in
+// a successful return although nothing was removed.
+func (c *Ctx) ruleHandledErrors(rule string, rm, rb *ssa.Function) {
+	if rm == nil || rb == nil {
+		return
+	}
+	sentinel := func(v ssa.Value) string {
+		v = ir.StripIface(v)
+		if ld, ok := v.(*ssa.UnOp); ok && ld.Op == token.MUL {
+			if g, isG := ld.X.(*ssa.Global); isG {
+				return g.Name()
+			}
+		}
+		return ""
+	}
+	can := map[string]bool{}
+	for _, g := range c.cone(rb) {
+		if g != rb {
+			continue
+		}
+		for _, r := range ir.Returns(g) {
+			ev := effectiveResult(g, r, len(r.Results)-1)
+			if ir.IsNilConst(ev) {
+				continue
+			}
+			if s := sentinel(ev); s != "" {
+				can[s] = true
+			} else {
+				can["(other error at "+c.IPos(r)+")"] = true
+			}
+		}
+	}
+	for _, f := range withAnon(rm) {
+		for _, b := range f.Blocks {
+			for _, i := range b.Instrs {
+				call, ok := i.(*ssa.Call)
+				if !ok || ir.Callee(call) != rb {
+					continue
+				}
+				e, kept := errValue(call)
+				if !kept || e == nil {
+					c.R.Violf(rule, name(rm), "errors-of-RemoveBytes", c.IPos(call), "every error of the list-level removal is told apart from success", "the error of "+name(rb)+" is dropped")
+					return
+				}
+				handled := map[string]bool{}
+				nilTested := false
+				for _, ce := range ir.CondEdges(f) {
+					if v, _, isNil := ir.NilCheck(ce.RawCond); isNil && sameErrValue(v, e) {
+						nilTested = true
+					}
+					if ev, isEq := isErrTest(ce.Cond); isEq && sameErrValue(ev.err, e) {
+						handled[ev.sentinel] = true
+					}
+				}
+				if nilTested {
+					c.R.Okf(rule, name(rm), "errors-of-RemoveBytes", c.IPos(call), "the error of the list-level removal is compared with nil")
+					return
+				}
+				var missing []string
+				for s := range can {
+					if !handled[s] {
+						missing = append(missing, s)
+					}
+				}
+				sort.Strings(missing)
+				c.R.Check(len(missing) == 0, rule, name(rm), "errors-of-RemoveBytes", c.IPos(call), "every error of the list-level removal is told apart from success",
+					name(rb)+" can return "+strings.Join(missing, ", ")+", which "+name(rm)+" neither tests for nor compares with nil: such a failure ends in the successful return")
+				return
+			}
+		}
+	}
+	c.R.Infof(rule, name(rm), "errors-of-RemoveBytes", c.Pos(rm.Pos()), "not decided for this shape: no direct call of the list-level removal")
+}
+
+type errTest struct {
+	err      ssa.Value
+	sentinel string
+}
+
+// isErrTest: errors.Is(err, pkg.ErrX) or err == pkg.ErrX.
+func isErrTest(cond ssa.Value) (errTest, bool) {
+	glob := func(v ssa.Value) string {
+		v = ir.StripIface(v)
+		if ld, ok := v.(*ssa.UnOp); ok && ld.Op == token.MUL {
+			if g, isG := ld.X.(*ssa.Global); isG {
+				return g.Name()
+			}
+		}
+		return ""
+	}
+	switch x := cond.(type) {
+	case *ssa.Call:
+		id := ir.CallID(x)
+		if (id == "errors.Is" || id == "github.com/pkg/errors.Is") && len(x.Call.Args) == 2 {
+			if g := glob(x.Call.Args[1]); g != "" {
+				return errTest{x.Call.Args[0], g}, true
+			}
+		}
+	case *ssa.BinOp:
+		if x.Op == token.EQL || x.Op == token.NEQ {
+			if g := glob(x.Y); g != "" {
+				return errTest{x.X, g}, true
+			}
+			if g := glob(x.X); g != "" {
+				return errTest{x.Y, g}, true
+			}
+		}
+	}
+	return errTest{}, false
+}
+
+// ruleListNotShared (K10.share): a list put into a database is either the
+// caller's list object itself or a copy with entries of its own. A copy of the
+// list header alone (l := *sl; &l) leaves two headers over one array of
+// entries: an append or a removal through one of them rewrites the other's
+// entries while its length and sizes stay.
+func (c *Ctx) ruleListNotShared(rule string) {
+	for _, spec := range []string{"efi/signature.(*SignatureDatabase).AppendList", "efi/signature.(*SignatureDatabase).AppendDatabase"} {
+		fn := c.FnOpt(spec)
+		if fn == nil {
+			continue
+		}
+		bad := ""
+		for _, g := range withAnon(fn) {
+			instrsOf(g, func(i ssa.Instruction) {
+				st, ok := i.(*ssa.Store)
+				if !ok {
+					return
+				}
+				al, isA := st.Addr.(*ssa.Alloc)
+				if !isA || ir.NamedTypeID(al.Type()) != sigPkg+".SignatureList" {
+					return
+				}
+				ld, isLd := st.Val.(*ssa.UnOp)
+				if !isLd || ld.Op != token.MUL {
+					return
+				}
+				if _, fromParam := ir.RootOf(ld.X).(*ssa.Parameter); !fromParam {
+					if _, isExtract := ld.X.(*ssa.Extract); !isExtract {
+						if _, isIdx := ld.X.(*ssa.UnOp); !isIdx {
+							return
+						}
+					}
+				}
+				// the copy's entries replaced by a slice of their own?
+				own := false
+				for _, r := range *al.Referrers() {
+					if fa, isFA := r.(*ssa.FieldAddr); isFA && ir.FieldID(fa) == fSignatures {
+						for _, rr := range *fa.Referrers() {
+							if s2, isSt := rr.(*ssa.Store); isSt && s2.Addr == ssa.Value(fa) {
+								own = true
+							}
+						}
+					}
+				}
+				// does the copy's address escape into the database?
+				escapes := false
+				for _, r := range *al.Referrers() {
+					switch r.(type) {
+					case *ssa.Store, *ssa.FieldAddr, *ssa.UnOp:
+					default:
+						escapes = true
+					}
+					if s2, isSt := r.(*ssa.Store); isSt && s2.Val == ssa.Value(al) {
+						escapes = true
+					}
+				}
+				if !own && escapes {
+					bad = c.IPos(st)
+				}
+			})
+		}
+		c.R.Check(bad == "", rule, name(fn), "own-entries", c.Pos(fn.Pos()), "a list stored in the database is the caller's list object or a copy with entries of its own",
+			"the list header is copied at "+bad+" and the copy is stored: both headers share one array of entries, so an append or removal through one rewrites the other's entries")
+	}
 }
